@@ -373,14 +373,28 @@ func (r *Rec) Flush() {
 		b, _ = json.Marshal(doc)
 	}
 	name := fmt.Sprintf("rec_%s_%s_%d.json", r.Prop, sanitize(r.Sub), idx)
-	_ = os.WriteFile(filepath.Join(OutDir(), name), b, 0o644)
+	writeAtomic(filepath.Join(OutDir(), name), b)
 	if n > 1 {
 		// digests, so the driver can count distinct cases over all shards
 		buf := make([]byte, 0, 8*len(r.distinct))
 		for d := range r.distinct {
 			buf = append(buf, d[:]...)
 		}
-		_ = os.WriteFile(filepath.Join(OutDir(), fmt.Sprintf("dig_%s_%s_%d.bin", r.Prop, sanitize(r.Sub), idx)), buf, 0o644)
+		writeAtomic(filepath.Join(OutDir(), fmt.Sprintf("dig_%s_%s_%d.bin", r.Prop, sanitize(r.Sub), idx)), buf)
+	}
+}
+
+// writeAtomic replaces path by a complete file or leaves it alone: a process that is killed while it
+// flushes (a native fuzz worker at the end of its time) must not leave a truncated record behind
+// (that happened once in a thorough sweep and turned a green run into exit 2).
+func writeAtomic(path string, b []byte) {
+	tmp := filepath.Join(filepath.Dir(path), fmt.Sprintf(".tmp_%d_%s", os.Getpid(), filepath.Base(path)))
+	if err := os.WriteFile(tmp, b, 0o644); err != nil {
+		_ = os.Remove(tmp)
+		return
+	}
+	if err := os.Rename(tmp, path); err != nil {
+		_ = os.Remove(tmp)
 	}
 }
 
